@@ -20,6 +20,7 @@ type vfPairOpt struct {
 	// KeepOpen: do not close the transport end when an endpoint's handshake fails.
 	KeepOpen bool
 	Prepare  func(sim *vfStream, cli, srv *Conn)
+	SrvAddr  string // address of the server end (the client's session cache is keyed by it)
 }
 
 type vfPair struct {
@@ -44,6 +45,7 @@ func vfRunPair(ccfg, scfg *Config, opt vfPairOpt) *vfPair {
 			sim.ends[i].cutAfter = opt.Cut[i] - 1
 		}
 	}
+	sim.ends[1].addr = opt.SrvAddr
 	cli, srv := Client(sim.ends[0], ccfg), Server(sim.ends[1], scfg)
 	if opt.Prepare != nil {
 		opt.Prepare(sim, cli, srv)
